@@ -326,3 +326,36 @@ def _zero_dim(case):
     info.classes.append("eos_set" if b["eos"] is not None else "eos_unset")
     info.nontrivial = True
     return info
+
+
+# ------------------------------------------------------------ long structured pairs
+
+
+@st.composite
+def _long_case(draw, tier):
+    c = {
+        "b": draw(G.long_batch(tier)),
+        "costs": draw(G.dyadic_costs()),
+        "include_eos": draw(st.booleans()),
+        "norm": draw(st.booleans()),
+        "batch_first": draw(st.booleans()),
+        "exclude_last": draw(st.booleans()),
+        "padding": -1,
+        "entry": "function",
+        "which": draw(st.sampled_from(["distance", "distance", "prefix"])),
+    }
+    return c
+
+
+@subcheck("C01", "long_pairs", lambda tier: _long_case(tier), 500, 8000,
+          doc="references of 10..40 (thorough ..100) tokens and hypotheses derived from them by runs of deletions / insertions / substitutions at generated positions; same DP oracle (reaches position-dependent defects such as blocked sweeps)",
+          required_classes=["len_ge_16", "len_ge_32"])
+def _long_pairs(case):
+    info = _distance_check(case, exact=True) if case["which"] == "distance" else _prefix_check(case, exact=True)
+    m = max(len(r) for r in case["b"]["refs"])
+    if m >= 16:
+        info.classes.append("len_ge_16")
+    if m >= 32:
+        info.classes.append("len_ge_32")
+    info.nontrivial = True
+    return info
